@@ -17,9 +17,9 @@ from vf.api import Generated, HarnessError, Violation
 PROPERTY = "C37"
 LEVEL = "exploration"
 RULE = (
-    "programs (<=30 ops) over 2-3 objects per side of one relationship kind (one-to-many list/backref, one-to-many set/back_populates, one-to-one, "
+    "programs (<=30 ops) over 2-4 objects per side of one relationship kind (one-to-many list/backref, one-to-many set/back_populates, one-to-one, "
     "many-to-many list/backref, many-to-many set/back_populates), objects pending or persisted+loaded: collection side append/insert/setitem/"
-    "slice assign (any start/stop/step)/slice delete/delitem/remove/pop/extend/+=/clear/whole replacement, set add/discard/remove/pop/update/|=/&=/-=/^=/"
+    "slice assign (any start/stop/step)/slice delete/delitem/remove/pop/extend/+=/clear/whole replacement/`del obj.coll` (0-4 members), set add/discard/remove/pop/update/|=/&=/-=/^=/"
     "clear/replacement; scalar side set/None/del; interleaved flush+expire_all+reload. Non-trivial: the program uses a whole-collection replacement or "
     "slice op together with a scalar-side set, or moves a child from one parent to another (many-to-many: mutates one association from both sides); "
     "distinct = canonical JSON of the program"
@@ -40,11 +40,12 @@ KINDS = {
     "m2m_set": dict(A="ItemS", B="KeywordS", acoll="keywords", bcoll="items", ctype="set"),
 }
 
+SIG_DEL = "C37/del-collection-attribute/removal-not-persisted"
 SIG_O2O = "C37/o2o/reassignment-leaves-previous-owner-referencing"
 
-LIST_OPS = ["append", "insert", "setitem", "slice_set", "slice_del", "delitem", "remove", "pop", "extend", "iadd", "clear", "replace"]
+LIST_OPS = ["append", "insert", "setitem", "slice_set", "slice_del", "delitem", "remove", "pop", "extend", "iadd", "clear", "replace", "del_attr", "del_attr"]
 SET_OPS = ["add", "discard", "remove", "pop", "update", "ior", "iand", "isub", "ixor", "clear", "replace", "difference_update", "intersection_update",
-           "symmetric_difference_update"]
+           "symmetric_difference_update", "del_attr", "del_attr"]
 SCALAR_OPS = ["set", "set", "set", "none", "del"]
 
 
@@ -129,6 +130,9 @@ def _apply_list(coll, L, objs, op, x, y, z, items, n, attr_owner, attr_name):
         repl = list(dict.fromkeys(v % n for v in items))
         setattr(attr_owner, attr_name, [objs[i] for i in repl])
         L[:] = repl
+    elif op == "del_attr":
+        delattr(attr_owner, attr_name)  # `del parent.children`: every member must be released on its own side too
+        del L[:]
     else:
         raise HarnessError(op)
     return True
@@ -197,6 +201,9 @@ def _apply_set(coll, L, objs, op, x, y, z, items, n, attr_owner, attr_name):
     elif op == "replace":
         setattr(attr_owner, attr_name, set(objs[i] for i in sel))
         S = set(sel)
+    elif op == "del_attr":
+        delattr(attr_owner, attr_name)
+        S = set()
     else:
         raise HarnessError(op)
     L[:] = [i for i in L if i in S] + sorted(S - set(L))
@@ -255,6 +262,9 @@ def check(case, ctx):
                     bc[b_].append(a_)
                 else:
                     par[b_] = a_
+        persisted_now = [case["start"] == "persisted"]
+        fragile = {}  # many-to-many: unflushed removed pair -> the owners whose collection history still records the removal
+        lost_del = [False]
         if case["start"] == "persisted":
             want = {(a_, b_) for a_ in range(na) for b_ in ac[a_]} if not o2o else {(a_, q) for a_, q in enumerate(ap) if q is not None}
             sess.commit()
@@ -330,8 +340,9 @@ def check(case, ctx):
                 sess.expire_all()
                 load_all()
                 from_a, from_b = real_relation()
+                fragile.clear()
                 if from_a != before or from_b != before:
-                    raise Violation(f"C37/{kind}/reload-differs", f"step {step}: relation before flush {sorted(before)}; reloaded A side {sorted(from_a)}, B side {sorted(from_b)}",
+                    raise Violation(SIG_DEL if lost_del[0] else f"C37/{kind}/reload-differs", f"step {step}: relation before flush {sorted(before)}; reloaded A side {sorted(from_a)}, B side {sorted(from_b)}",
                                     observed=[sorted(from_a), sorted(from_b)], expected=sorted(before))
                 # list order is not persisted: adopt the loaded order
                 if not o2o:
@@ -341,19 +352,40 @@ def check(case, ctx):
                         for bi, b in enumerate(Bs):
                             bc[bi] = [As.index(p) for p in getattr(b, K["bcoll"])]
                 classes.add("reload")
+                persisted_now[0] = True
                 continue
             if side == "A" and not o2o:
-                ai = o % na
-                a = As[ai]
-                coll = getattr(a, K["acoll"])
-                old = list(ac[ai])
                 fn = _apply_list if ctype == "list" else _apply_set
                 ops = LIST_OPS if ctype == "list" else SET_OPS
                 op = ops[op % len(ops)]
+                ai = o % na
+                if op == "del_attr" and y % 2:
+                    ai = max(range(na), key=lambda j: (len(ac[j]), -j))  # prefer the fullest collection
+                if op == "del_attr" and m2m and any(pr[0] == ai and cr <= {("A", ai)} for pr, cr in fragile.items()):
+                    sig = SIG_DEL
+                    if not case.get("pinned"):
+                        ctx.exclude("del of a many-to-many collection whose pending removals are only recorded on this side (known finding)")
+                        continue
+                    lost_del[0] = True
+                a = As[ai]
+                coll = getattr(a, K["acoll"])
+                old = list(ac[ai])
                 if not fn(coll, ac[ai], Bs, op, x, y, z, items, nb, a, K["acoll"]):
                     continue
+                if op == "del_attr":
+                    classes.add("del-collection-attr")
+                    classes.add(f"del-collection-attr:{min(len(old), 2)}{'+' if len(old) >= 2 else ''}-members:{'persistent' if persisted_now[0] else 'pending'}")
                 added = [b for b in ac[ai] if b not in old]
                 removed = [b for b in old if b not in ac[ai]]
+                if m2m:
+                    for b in added:
+                        fragile.pop((ai, b), None)
+                    for b in removed:
+                        fragile[(ai, b)] = {("B", b)} if op == "del_attr" else {("A", ai), ("B", b)}
+                    if op == "del_attr":
+                        for pr, cr in fragile.items():
+                            if pr[0] == ai:
+                                cr.discard(("A", ai))
                 for b in removed:
                     if m2m:
                         bc[b].remove(ai)
@@ -371,19 +403,36 @@ def check(case, ctx):
                 for b in added + removed:
                     both_sides.add(("A", ai, b))
             elif side == "B" and m2m:
-                bi = o % nb
-                b = Bs[bi]
-                coll = getattr(b, K["bcoll"])
-                old = list(bc[bi])
                 fn = _apply_list if ctype == "list" else _apply_set
                 ops = LIST_OPS if ctype == "list" else SET_OPS
                 op = ops[op % len(ops)]
+                bi = o % nb
+                if op == "del_attr" and y % 2:
+                    bi = max(range(nb), key=lambda j: (len(bc[j]), -j))
+                if op == "del_attr" and any(pr[1] == bi and cr <= {("B", bi)} for pr, cr in fragile.items()):
+                    sig = SIG_DEL
+                    if not case.get("pinned"):
+                        ctx.exclude("del of a many-to-many collection whose pending removals are only recorded on this side (known finding)")
+                        continue
+                    lost_del[0] = True
+                b = Bs[bi]
+                coll = getattr(b, K["bcoll"])
+                old = list(bc[bi])
                 if not fn(coll, bc[bi], As, op, x, y, z, items, na, b, K["bcoll"]):
                     continue
+                if op == "del_attr":
+                    classes.add("del-collection-attr")
+                    classes.add(f"del-collection-attr:{min(len(old), 2)}{'+' if len(old) >= 2 else ''}-members:{'persistent' if persisted_now[0] else 'pending'}")
                 for a_ in [a_ for a_ in old if a_ not in bc[bi]]:
                     ac[a_].remove(bi)
                     both_sides.add(("B", a_, bi))
+                    fragile[(a_, bi)] = {("A", a_)} if op == "del_attr" else {("A", a_), ("B", bi)}
+                if op == "del_attr":
+                    for pr, cr in fragile.items():
+                        if pr[1] == bi:
+                            cr.discard(("B", bi))
                 for a_ in [a_ for a_ in bc[bi] if a_ not in old]:
+                    fragile.pop((a_, bi), None)
                     ac[a_].append(bi)
                     both_sides.add(("B", a_, bi))
             elif side == "B":
@@ -470,7 +519,7 @@ def check(case, ctx):
         sess.expire_all()
         from_a, from_b = real_relation()
         if from_a != before or from_b != before:
-            raise Violation(f"C37/{kind}/reload-differs", f"final: relation before flush {sorted(before)}; reloaded A side {sorted(from_a)}, B side {sorted(from_b)}",
+            raise Violation(SIG_DEL if lost_del[0] else f"C37/{kind}/reload-differs", f"final: relation before flush {sorted(before)}; reloaded A side {sorted(from_a)}, B side {sorted(from_b)}",
                             observed=[sorted(from_a), sorted(from_b)], expected=sorted(before))
         rows = _rows(sess, kind, K)
         if rows != before:
@@ -515,11 +564,11 @@ _i = st.integers(0, 11)
 def _programs(draw):
     kind = draw(st.sampled_from(sorted(KINDS)))
     side = st.sampled_from(["A", "A", "B"]) if not kind.startswith("m2m") else st.sampled_from(["A", "B"])
-    op = st.tuples(side, st.integers(0, 13), _i, _i, _i, _i, st.lists(_i, max_size=3))
+    op = st.tuples(side, st.integers(0, 559), _i, _i, _i, _i, st.lists(_i, max_size=4))
     reload_ = st.just(("A", "reload", 0, 0, 0, 0, []))
     ops = draw(st.lists(st.one_of(*([op] * 19 + [reload_])), min_size=2, max_size=30))
-    init = draw(st.lists(st.tuples(st.integers(0, 2), st.integers(0, 2)), max_size=5))
-    return {"kind": kind, "init": [list(p) for p in init], "na": draw(st.integers(2, 3)), "nb": draw(st.integers(2, 3)), "start": draw(st.sampled_from(["pending", "persisted"])), "ops": [list(o) for o in ops]}
+    init = draw(st.lists(st.tuples(st.integers(0, 3), st.integers(0, 3)), max_size=7))
+    return {"kind": kind, "init": [list(p) for p in init], "na": draw(st.integers(2, 4)), "nb": draw(st.integers(2, 4)), "start": draw(st.sampled_from(["pending", "persisted"])), "ops": [list(o) for o in ops]}
 
 
 def subs(tier):
